@@ -5,14 +5,14 @@ package sx
 import "go/types"
 
 type scannerState struct {
-	reader  iface
-	loaded  bool
-	data    value // whole input once loaded
-	rest    value
-	tok     value
-	err     value
-	custom  bool
-	maxTok  int64
+	reader iface
+	loaded bool
+	data   value // whole input once loaded
+	rest   value
+	tok    value
+	err    value
+	custom bool
+	maxTok int64
 }
 
 func (i *interpreter) readAll(fr *frame, r iface) (value, value) {
